@@ -156,7 +156,7 @@ def judge_resolution(chk, row, o):
     occs = row["occ"]
     rep = {"row": row, "observed": o}
     if "panic" in res:
-        chk.report("panic:resolve:%s" % res["panic"]["loc"].replace("/repo/", ""),
+        chk.report("panic:resolve:%s" % lib.norm_loc(res["panic"]["loc"]),
                    "resolve_names panics (%s) on:\n%s" % (res["panic"]["msg"], text), rep)
         return
     if "rejected" in res or "unsupported" in res:
@@ -218,7 +218,7 @@ def judge_renaming(chk, row, o):
     base = outs[0]
     for j, other in enumerate(outs):
         if "panic" in other["out"]:
-            chk.report("panic:lower:%s" % other["out"]["panic"]["loc"].replace("/repo/", ""),
+            chk.report("panic:lower:%s" % lib.norm_loc(other["out"]["panic"]["loc"]),
                        "compiling panics (%s) on:\n%s" % (other["out"]["panic"]["msg"], other["text"]), rep)
             return
     chk.add("renamed_programs", len(outs) - 1)
